@@ -7,9 +7,9 @@ partial def loop (h : IO.FS.Stream) (out : IO.FS.Stream) (k : Nat) : IO Unit := 
   if t.isEmpty || t.startsWith ";" then
     loop h out k
   else
-    out.putStrLn s!"#{k}"
-    for (key, v) in Driver.execRequest t do
-      out.putStrLn (key ++ "=" ++ v)
+    -- one write per request (hundreds of thousands of small writes are slow)
+    let lines := (Driver.execRequest t).map (fun (key, v) => key ++ "=" ++ v ++ "\n")
+    out.putStr (s!"#{k}\n" ++ String.join lines.toList)
     loop h out (k + 1)
 
 def main : IO Unit := do
